@@ -738,7 +738,7 @@ func partialPool(c *Ctx, idx int, hosts int) {
 	r := c.R
 	scenario := map[string]interface{}{"kind": "partial-pool", "idx": idx, "hosts": hosts}
 	c.Step("partial-pool idx=%d hosts=%d", idx, hosts)
-	bed, err := px.NewBed(px.BedConfig{Hosts: hosts, NumConns: 2, Keyspaces: []string{"ks1"}, ReconnectBase: 5 * time.Millisecond, ReconnectMax: 20 * time.Millisecond, ConnectTimeout: 500 * time.Millisecond})
+	bed, err := px.NewBed(px.BedConfig{Hosts: hosts, NumConns: 2, Keyspaces: []string{"ks1"}, ReconnectBase: 120 * time.Millisecond, ReconnectMax: 200 * time.Millisecond, ConnectTimeout: 500 * time.Millisecond})
 	if err != nil {
 		r.Inconc("partial-pool: cannot start bed: " + err.Error())
 		return
@@ -790,7 +790,36 @@ func partialPool(c *Ctx, idx int, hosts int) {
 		bed.Cluster.Hosts[healthy-1].StopListener() // the lost connection cannot be replaced
 		before := len(bed.Policy.Calls.Snapshot())
 		victim.Kill(false)
-		// the proxy has noticed (slot cleared) and failed at least one reconnect of that slot
+		// phase "right after the loss": the proxy has noticed (the pool reported the slot) but not yet tried to reconnect;
+		// phase "later": at least one reconnect of that slot has failed
+		if !waitFor(func() bool { smu.Lock(); defer smu.Unlock(); return len(cleared) > nCleared }, 10*time.Second) {
+			r.Inconc("partial-pool: the proxy did not notice the lost connection")
+			return
+		}
+		// (the hook fires just before the pool empties the slot: give it the moment it needs; a pool that keeps the dead
+		// connection in its slot longer than that is what this phase is about)
+		nBefore := len(bed.BackendConns())
+		waitFor(func() bool { return len(bed.BackendConns()) < nBefore }, 60*time.Millisecond)
+		badEarly := 0
+		for k := 0; k < 6; k++ {
+			tok := NewTok()
+			f, err := cl.CallF(BuildRequest(primitive.ProtocolVersion4, int16(100*round+50+k), KQuery, true, tok, primitive.ConsistencyLevelQuorum), 10*time.Second)
+			r.Eval(1)
+			if err != nil {
+				badEarly++
+				continue
+			}
+			if ri := replyInfo(f); !(ri.Kind == "Rows" && ri.Tok == tok && ri.Echo.Host == healthy) {
+				badEarly++
+			}
+		}
+		if badEarly > 0 {
+			smu.Lock()
+			slot := cleared[len(cleared)-1]
+			smu.Unlock()
+			r.Violate(mon.Violation{Signature: "C05/healthy-host-skipped/one-of-two-connections-down", Detail: fmt.Sprintf("host %d has just lost the connection in slot %d of its two-connection pool (no reconnect attempted yet) and has the other one up; every other host answers Overloaded: %d of 6 idempotent requests were not answered by host %d", healthy, slot, badEarly, healthy), Scenario: scenario})
+			return
+		}
 		ok := waitFor(func() bool {
 			n := 0
 			for _, pc := range bed.Policy.Calls.Snapshot()[before:] {
@@ -798,9 +827,7 @@ func partialPool(c *Ctx, idx int, hosts int) {
 					n++
 				}
 			}
-			smu.Lock()
-			defer smu.Unlock()
-			return n >= 4 && len(cleared) > nCleared
+			return n >= 3
 		}, 10*time.Second)
 		if !ok {
 			r.Inconc("partial-pool: the proxy did not notice the lost connection")
